@@ -50,9 +50,10 @@ structure RelC18 (s : St) (ms : C18St) : Prop where
   jobs : ms.jobs = s.jobs.map jinfo
   clen : ms.calls.length = s.th.length
   calls : ∀ (t : Nat) (ts : TS) (c : CInfo), s.th[t]? = some ts → ms.calls[t]? = some c → CRel s t ts c
+  cxlt : ∀ t : Nat, s.cx.contains t = true → t < s.th.length
 
 theorem relC18_init : RelC18 model.init (monC18g false).init :=
-  ⟨init_inv, rfl, rfl, rfl, by intro t ts c h; simp [model] at h⟩
+  ⟨init_inv, rfl, rfl, rfl, by intro t ts c h; simp [model] at h, by intro t h; simp [model] at h⟩
 
 /-- the jobs of `s1` are those of `s` up to changes the history cannot see (a waiting job stays
 waiting; sequence numbers already given are kept) -/
@@ -95,5 +96,290 @@ theorem kept_set (s : St) (jobs' : List Job) (j : Nat) (x x' : Job) (hj : s.jobs
     rw [hj] at hy; cases hy
     exact ⟨x', getElem?_set_self' _ _ _ _ hj, hv, hq⟩
   · exact ⟨y, by rw [getElem?_set_ne' _ _ _ _ hu]; exact hy, rfl, fun _ h => h⟩
+
+
+theorem jinfo_waiting (x : Job) (st' : JS) (sq : Option Nat) (h : x.st.waiting = true) (h' : st'.waiting = true) :
+    jinfo { x with st := st', seq := sq } = jinfo x := by
+  simp only [jinfo, JInfo.mk.injEq, true_and]
+  rw [jview_waiting x h, jview_waiting _ (by simpa using h')]
+
+theorem kept_place (s : St) (j : Nat) (jb : Job) (hj : s.jobs[j]? = some jb) (hf : jb.st = .fresh)
+    (hsq : jb.seq = none) : Kept s (place s j) := by
+  unfold place
+  split
+  · exact kept_set s _ j jb _ hj (setJob_eq hj _ _) (jinfo_waiting jb _ _ (by rw [hf]; rfl) rfl)
+      (by intro q hq; rw [hsq] at hq; cases hq) _ rfl
+  · exact kept_set s _ j jb _ hj (setJob_eq hj _ _) (jinfo_waiting jb _ _ (by rw [hf]; rfl) rfl)
+      (by intro q hq; rw [hsq] at hq; cases hq) _ rfl
+
+theorem fold_place_kept (js : List Nat) (s : St) (hJ : JInv s)
+    (hfr : ∀ j : Nat, j ∈ js → ∃ jb : Job, s.jobs[j]? = some jb ∧ jb.st = .fresh) (hnd : js.Nodup) :
+    Kept s (js.foldl place s) := by
+  induction js generalizing s with
+  | nil => exact kept_refl s
+  | cons j rest ih =>
+    obtain ⟨jb, hj, hf⟩ := hfr j (by simp)
+    obtain ⟨hJ1, F1⟩ := place_step s j jb hJ hj hf
+    rw [List.nodup_cons] at hnd
+    have hfr1 : ∀ u : Nat, u ∈ rest → ∃ x : Job, (place s j).jobs[u]? = some x ∧ x.st = .fresh := by
+      intro u hu
+      obtain ⟨x, hx, hxf⟩ := hfr u (by simp [hu])
+      have : u ∉ [j] := by intro e; simp at e; subst e; exact hnd.1 hu
+      exact ⟨x, by rw [F1.other u this]; exact hx, hxf⟩
+    simp only [List.foldl_cons]
+    exact kept_trans (kept_place s j jb hj hf ((hJ.seqs j jb hj).1.mp hf)) (ih (place s j) hJ1 hfr1 hnd.2)
+
+theorem kept_pushInit (s : St) (j : Nat) (jb : Job) (hj : s.jobs[j]? = some jb) (hf : jb.st = .fresh)
+    (hsq : jb.seq = none) : Kept s (pushInit s j) :=
+  kept_set s _ j jb _ hj (setJob_eq hj _ _) (jinfo_waiting jb _ _ (by rw [hf]; rfl) rfl)
+    (by intro q hq; rw [hsq] at hq; cases hq) _ rfl
+
+theorem fold_push_kept (js : List Nat) (s : St) (hJ : JInv0 s)
+    (hfr : ∀ j : Nat, j ∈ js → ∃ jb : Job, s.jobs[j]? = some jb ∧ jb.st = .fresh) (hnd : js.Nodup) :
+    Kept s (js.foldl pushInit s) := by
+  induction js generalizing s with
+  | nil => exact kept_refl s
+  | cons j rest ih =>
+    obtain ⟨jb, hj, hf⟩ := hfr j (by simp)
+    have hJ1 : JInv0 (pushInit s j) := jinv0_enq s j jb hJ hj hf
+    have hother : ∀ u : Nat, u ≠ j → (pushInit s j).jobs[u]? = s.jobs[u]? := by
+      intro u hu
+      simp only [pushInit, setJob_eq hj]
+      exact getElem?_set_ne' _ _ _ _ (fun e => hu e.symm)
+    rw [List.nodup_cons] at hnd
+    have hfr1 : ∀ u : Nat, u ∈ rest → ∃ x : Job, (pushInit s j).jobs[u]? = some x ∧ x.st = .fresh := by
+      intro u hu
+      obtain ⟨x, hx, hxf⟩ := hfr u (by simp [hu])
+      have : u ≠ j := by intro e; subst e; exact hnd.1 hu
+      exact ⟨x, by rw [hother u this]; exact hx, hxf⟩
+    simp only [List.foldl_cons]
+    exact kept_trans (kept_pushInit s j jb hj hf ((hJ.seqs j jb hj).1.mp hf)) (ih (pushInit s j) hJ1 hfr1 hnd.2)
+
+/-- a queued job is handed to a worker -/
+theorem kept_assign (s : St) (j : Nat) (jb : Job) (hj : s.jobs[j]? = some jb) (hst : jb.st = .queued)
+    (s1 : St) (h1 : s1.jobs = setJobSt s.jobs j .assigned) : Kept s s1 := by
+  refine kept_set s _ j jb { jb with st := .assigned } hj (setJobSt_eq hj _) ?_ (fun _ h => h) s1 h1
+  have := jinfo_waiting jb .assigned jb.seq (by rw [hst]; rfl) rfl
+  simpa using this
+
+theorem update_kept (n : Nat) (s : St) (h : JInv0 s) : Kept s (update s n) := by
+  induction n generalizing s with
+  | zero => exact kept_refl s
+  | succ n ih =>
+    unfold update
+    split
+    · rename_i hr
+      split
+      · exact kept_refl s
+      · rename_i j rest hq
+        obtain ⟨jb, hj, hst, _⟩ := queue_head s h j rest hq
+        exact kept_trans (kept_assign s j jb hj hst _ rfl) (ih _ (jinv0_popNew s j rest h hq hr))
+    · exact kept_refl s
+
+
+/-- the monitor's record does not distinguish these call states -/
+def TSame (ts ts1 : TS) : Prop :=
+  ts1.isFinished = ts.isFinished ∧ ts1.wiN0 = ts.wiN0 ∧ ts1.isWS = ts.isWS ∧
+  ∀ (q r : Int) (ch : Nat), ts1 = .wsParked q r ch → ts = .wsParked q r ch
+
+theorem tsame_refl (ts : TS) : TSame ts ts := ⟨rfl, rfl, rfl, fun _ _ _ h => h⟩
+
+theorem crel_move' {s s1 : St} {t : Nat} {ts ts1 : TS} {c : CInfo}
+    (kj : ∀ (u : Nat) (x : Job), s.jobs[u]? = some x →
+          ∃ x' : Job, s1.jobs[u]? = some x' ∧ jinfo x' = jinfo x ∧ (∀ q : Nat, x.seq = some q → x'.seq = some q))
+    (hcx : s1.cx.contains t = s.cx.contains t)
+    (hts : TSame ts ts1) (h : CRel s t ts c) : CRel s1 t ts1 c := by
+  obtain ⟨e1, e2, e3, e4⟩ := hts
+  refine ⟨by rw [h.ret, e1], by rw [h.canc, hcx], by rw [e2]; exact h.kwi, by rw [e3]; exact h.kws, ?_, ?_⟩
+  · intro q r ch hp; exact h.last q r ch (e4 q r ch hp)
+  · intro n0 hn j hj
+    rw [e2] at hn
+    obtain ⟨jb, q, a, b, c', d⟩ := h.snapWI n0 hn j hj
+    obtain ⟨x', h1, hv, hq⟩ := kj j jb a
+    refine ⟨x', q, h1, hq q b, c', ?_⟩
+    have := congrArg JInfo.isNil hv
+    simp only [jinfo] at this
+    rw [this]; exact d
+
+theorem crel_move {s s1 : St} {t : Nat} {ts ts1 : TS} {c : CInfo} (k : Kept s s1) (hcx : s1.cx = s.cx)
+    (hts : TSame ts ts1) (h : CRel s t ts c) : CRel s1 t ts1 c :=
+  crel_move' k.job (by rw [hcx]) hts h
+
+/-- an internal step: the monitor state is unchanged -/
+theorem rel_internal (s s1 : St) (ms : C18St) (hR : RelC18 s ms) (hi1 : Inv s1) (k : Kept s s1)
+    (hcx : s1.cx = s.cx) (hcr : s1.created = s.created) (hlim : s1.limit = s.limit)
+    (hlen : s1.th.length = s.th.length)
+    (hth : ∀ (t : Nat) (ts1 : TS), s1.th[t]? = some ts1 → ∃ ts : TS, s.th[t]? = some ts ∧ TSame ts ts1) :
+    RelC18 s1 ms := by
+  refine ⟨hi1, by rw [hR.limit, hcr, hlim], by rw [hR.jobs, kept_map k], by rw [hR.clen, hlen], ?_,
+    by rw [hcx, hlen]; exact hR.cxlt⟩
+  intro t ts1 c h1 hc
+  obtain ⟨ts, h0, hsame⟩ := hth t ts1 h1
+  exact crel_move k hcx hsame (hR.calls t ts c h0 hc)
+
+/-- thread table after `set`: every entry is the old one or the replaced one -/
+theorem th_set_same (th : List TS) (t0 : Nat) (a b : TS) (ha : th[t0]? = some a) (hab : TSame a b) :
+    ∀ (t : Nat) (ts1 : TS), (th.set t0 b)[t]? = some ts1 → ∃ ts : TS, th[t]? = some ts ∧ TSame ts ts1 := by
+  intro t ts1 h
+  rcases getElem?_set_cases _ _ _ _ _ h with ⟨e, rfl⟩ | ⟨_, h'⟩
+  · exact ⟨a, by rw [e]; exact ha, hab⟩
+  · exact ⟨ts1, h', tsame_refl _⟩
+
+
+theorem kept_th (s : St) (th : List TS) (cx : List Nat) (mail : List (Nat × Msg)) (bc : Bcast) :
+    Kept s { s with th := th, cx := cx, mail := mail, bc := bc } :=
+  ⟨rfl, fun _ x h => ⟨x, h, rfl, fun _ hq => hq⟩⟩
+
+theorem sim_wiSample (s : St) (t n0 : Nat) (a : TS) (ms : C18St) (hR : RelC18 s ms) (ha : s.th[t]? = some a)
+    (hn : a.wiN0 = some n0) (hf : a.isFinished = false) (hws : a.isWS = false)
+    (hi' : Inv (wiSample s t n0)) : RelC18 (wiSample s t n0) ms := by
+  have hnp : ∀ (q r : Int) (ch : Nat), a ≠ .wsParked q r ch := by
+    intro q r ch e; rw [e] at hws; simp [TS.isWS] at hws
+  by_cases hid : s.running = 0 ∧ s.qsize = 0
+  · rw [wiSample, if_pos hid] at hi' ⊢
+    exact rel_internal s _ ms hR hi' (kept_th s _ s.cx s.mail s.bc) rfl rfl rfl (by simp)
+      (th_set_same s.th t _ _ ha ⟨by rw [hf]; rfl, by rw [hn]; rfl, by rw [hws]; rfl, by intro q r ch h; cases h⟩)
+  · rw [wiSample, if_neg hid] at hi' ⊢
+    exact rel_internal s _ ms hR hi' (kept_th s _ s.cx s.mail _) rfl rfl rfl (by simp)
+      (th_set_same s.th t _ _ ha ⟨by rw [hf]; rfl, by rw [hn]; rfl, by rw [hws]; rfl, by intro q r ch h; cases h⟩)
+
+theorem sim_internal (s : St) (e : Ev) (s' : St) (ms : C18St) (hR : RelC18 s ms)
+    (hs : step s e = some s') (hobs : e.obs = none) : RelC18 s' ms := by
+  have hi' := step_inv s e s' hR.inv hs
+  have hi := hR.inv
+  cases e with
+  | enqCS t =>
+    simp only [step] at hs; split at hs <;> simp at hs; subst hs
+    rename_i js ha
+    have hT := hi.th t _ ha
+    simp only [TSInv] at hT
+    have hfr : ∀ j : Nat, j ∈ js → ∃ jb : Job, s.jobs[j]? = some jb ∧ jb.st = .fresh := fun j hj => by
+      obtain ⟨jb, a, b, _⟩ := hT j hj; exact ⟨jb, a, b⟩
+    have hnd := hi.nodup t js ha
+    obtain ⟨_, F⟩ := fold_place js s hi.toJInv hfr hnd
+    have k := fold_place_kept js s hi.toJInv hfr hnd
+    refine rel_internal s _ ms hR hi' ⟨k.len, k.job⟩ F.cx F.created F.limit (by simp [F.th]) ?_
+    simp only [F.th]
+    exact th_set_same s.th t _ _ ha ⟨rfl, rfl, rfl, by intro q r ch h; cases h⟩
+  | skipNil w =>
+    simp only [step] at hs; split at hs <;> try simp at hs
+    rename_i j hw
+    split at hs <;> try simp at hs
+    rename_i jb hj
+    obtain ⟨hnil, rfl⟩ := hs
+    obtain ⟨x, hx, hst⟩ := hi.hasJ w j hw
+    rw [hj] at hx; cases hx
+    have k : Kept s { s with ws := s.ws.set w .afterJob, jobs := setJobSt s.jobs j .finished } := by
+      refine kept_set s _ j jb { jb with st := .finished } hj (setJobSt_eq hj _) ?_ (fun _ h => h) _ rfl
+      simp [jinfo, jview, hst, hnil]
+    exact rel_internal s _ ms hR hi' k rfl rfl rfl rfl (fun t ts1 h => ⟨ts1, h, tsame_refl _⟩)
+  | popCS w =>
+    simp only [step] at hs; split at hs <;> try simp at hs
+    rename_i hw
+    split at hs <;> simp at hs <;> subst hs
+    · exact rel_internal s _ ms hR hi' ⟨rfl, fun _ x h => ⟨x, h, rfl, fun _ hq => hq⟩⟩ rfl rfl rfl rfl
+        (fun t ts1 h => ⟨ts1, h, tsame_refl _⟩)
+    · rename_i j rest hq
+      obtain ⟨jb, hj, hst, _⟩ := queue_head s hi.toJInv0 j rest hq
+      exact rel_internal s _ ms hR hi' (kept_assign s j jb hj hst _ rfl) rfl rfl rfl rfl
+        (fun t ts1 h => ⟨ts1, h, tsame_refl _⟩)
+  | wiCS t =>
+    simp only [step] at hs; split at hs <;> try simp at hs
+    · subst hs; rename_i n0 ha
+      exact sim_wiSample s t n0 _ ms hR ha rfl rfl rfl hi'
+    · obtain ⟨_, rfl⟩ := hs; rename_i n0 ch ha _
+      exact sim_wiSample s t n0 _ ms hR ha rfl rfl rfl hi'
+  | wiCtx t =>
+    simp only [step] at hs; split at hs <;> simp at hs
+    obtain ⟨_, rfl⟩ := hs; rename_i n0 ch ha _
+    exact rel_internal s _ ms hR hi' (kept_th s _ s.cx s.mail s.bc) rfl rfl rfl (by simp)
+      (th_set_same s.th t _ _ ha ⟨rfl, rfl, rfl, by intro q r ch h; cases h⟩)
+  | wiErr t =>
+    simp only [step] at hs; split at hs <;> try simp at hs
+    rename_i n0 ch ha
+    split at hs <;> simp at hs <;> subst hs
+    · exact rel_internal s _ ms hR hi' (kept_th s _ s.cx _ s.bc) rfl rfl rfl (by simp)
+        (th_set_same s.th t _ _ ha ⟨rfl, rfl, rfl, by intro q r ch h; cases h⟩)
+    · exact rel_internal s _ ms hR hi' (kept_th s _ s.cx _ s.bc) rfl rfl rfl (by simp)
+        (th_set_same s.th t _ _ ha ⟨rfl, rfl, rfl, by intro q r ch h; cases h⟩)
+    · exact rel_internal s _ ms hR hi' (kept_th s _ s.cx s.mail s.bc) rfl rfl rfl (by simp)
+        (th_set_same s.th t _ _ ha ⟨rfl, rfl, rfl, by intro q r ch h; cases h⟩)
+  | wsCS t =>
+    simp only [step] at hs; split at hs <;> try simp at hs
+    · subst hs; rename_i ha
+      exact rel_internal s _ ms hR hi' (kept_th s _ s.cx s.mail _) rfl rfl rfl (by simp [wsSample])
+        (th_set_same s.th t _ _ ha ⟨rfl, rfl, rfl, by intro q r ch h; cases h⟩)
+    · obtain ⟨_, rfl⟩ := hs; rename_i q r ch ha _
+      exact rel_internal s _ ms hR hi' (kept_th s _ s.cx s.mail _) rfl rfl rfl (by simp [wsSample])
+        (th_set_same s.th t _ _ ha ⟨rfl, rfl, rfl, by intro q r ch h; cases h⟩)
+  | wsCtx t =>
+    simp only [step] at hs; split at hs <;> simp at hs
+    obtain ⟨_, rfl⟩ := hs; rename_i q r ch ha _
+    exact rel_internal s _ ms hR hi' (kept_th s _ s.cx s.mail s.bc) rfl rfl rfl (by simp)
+      (th_set_same s.th t _ _ ha ⟨rfl, rfl, rfl, by intro q r ch h; cases h⟩)
+  | invNew _ _ _ => simp [Ev.obs] at hobs
+  | retNew _ => simp [Ev.obs] at hobs
+  | invEnq _ _ => simp [Ev.obs] at hobs
+  | retEnq _ _ _ => simp [Ev.obs] at hobs
+  | jobIn _ _ => simp [Ev.obs] at hobs
+  | jobOut _ _ => simp [Ev.obs] at hobs
+  | invWI _ => simp [Ev.obs] at hobs
+  | retWI _ _ => simp [Ev.obs] at hobs
+  | invWS _ _ => simp [Ev.obs] at hobs
+  | cbWS _ _ _ _ => simp [Ev.obs] at hobs
+  | retWS _ _ => simp [Ev.obs] at hobs
+  | envCancel _ => simp [Ev.obs] at hobs
+  | envErr _ _ => simp [Ev.obs] at hobs
+  | quiesce _ _ => simp [Ev.obs] at hobs
+
+
+theorem calls_get {s : St} {ms : C18St} (hR : RelC18 s ms) {t : Nat} {ts : TS} (ha : s.th[t]? = some ts) :
+    ∃ c : CInfo, ms.calls[t]? = some c := by
+  have hlt := lt_of_getElem? ha
+  rw [← hR.clen] at hlt
+  exact ⟨ms.calls[t], List.getElem?_eq_getElem hlt⟩
+
+theorem setCall_eq {ms : C18St} {t : Nat} {c : CInfo} (hc : ms.calls[t]? = some c) (f : CInfo → CInfo) :
+    ms.setCall t f = { ms with calls := ms.calls.set t (f c) } := by simp [C18St.setCall, hc]
+
+/-- call `t0` moves to `ts'`, its record becomes `c'`; jobs are kept, contexts unchanged -/
+theorem rel_set (s s1 : St) (ms : C18St) (t0 : Nat) (ts' : TS) (c' : CInfo) (hR : RelC18 s ms) (hi1 : Inv s1)
+    (k : Kept s s1) (hcx : s1.cx = s.cx) (hcr : s1.created = s.created) (hlim : s1.limit = s.limit)
+    (hth : s1.th = s.th.set t0 ts') (hnew : CRel s1 t0 ts' c') :
+    RelC18 s1 { ms with calls := ms.calls.set t0 c' } := by
+  refine ⟨hi1, by rw [hR.limit, hcr, hlim], by rw [hR.jobs, kept_map k], by simp [hR.clen, hth], ?_,
+    by rw [hcx, hth]; simpa using hR.cxlt⟩
+  intro t ts c h1 hc
+  rw [hth] at h1
+  simp only at hc
+  rcases getElem?_set_cases _ _ _ _ _ h1 with ⟨e, rfl⟩ | ⟨hne, h1'⟩
+  · subst e
+    rcases getElem?_set_cases _ _ _ _ _ hc with ⟨_, rfl⟩ | ⟨hne, _⟩
+    · exact hnew
+    · exact absurd rfl hne
+  · rw [getElem?_set_ne' _ _ _ _ (fun e => hne e.symm)] at hc
+    exact crel_move k hcx (tsame_refl _) (hR.calls t ts c h1' hc)
+
+/-- a new call is invoked (jobs kept, possibly extended by the caller of this lemma beforehand) -/
+theorem rel_append (s s1 : St) (ms : C18St) (ts' : TS) (c' : CInfo) (hR : RelC18 s ms) (hi1 : Inv s1)
+    (k : Kept s s1) (hjobs : s1.jobs = s.jobs) (hcx : s1.cx = s.cx) (hcr : s1.created = s.created)
+    (hlim : s1.limit = s.limit) (hth : s1.th = s.th ++ [ts']) (hnew : CRel s1 s.th.length ts' c') :
+    RelC18 s1 { ms with calls := ms.calls ++ [c'] } := by
+  refine ⟨hi1, by rw [hR.limit, hcr, hlim], by rw [hR.jobs, hjobs], by simp [hR.clen, hth], ?_,
+    by rw [hcx, hth]; intro t ht; have := hR.cxlt t ht; simp; omega⟩
+  intro t ts c h1 hc
+  rw [hth] at h1
+  simp only at hc
+  rcases getElem?_snoc_cases _ _ _ _ h1 with ⟨hlt, h1'⟩ | ⟨e, rfl⟩
+  · rw [List.getElem?_append_left (by rw [hR.clen]; exact hlt)] at hc
+    exact crel_move k hcx (tsame_refl _) (hR.calls t ts c h1' hc)
+  · subst e
+    rw [← hR.clen, List.getElem?_append_right (Nat.le_refl _)] at hc
+    simp at hc; subst hc
+    exact hnew
+
+theorem pairOK_of (L q r : Int) (h : PairOK L q r) : pairOK L q r = true := by
+  unfold pairOK
+  exact decide_eq_true h
 
 end UtilModel.Conc
